@@ -561,7 +561,11 @@ Example file_lines_witness :
 Proof. vm_compute. repeat split; reflexivity. Qed.
 Example file_lines_valid_witness :
   Forall (fun l => C01_Model.utf8_decode l <> None) (NFKC_Tie.split_lines [] [97; 195; 169; 13; 10; 0; 10; 98]).
-Proof. vm_compute. repeat constructor; discriminate. Qed.
+Proof.
+  replace (NFKC_Tie.split_lines [] [97; 195; 169; 13; 10; 0; 10; 98]) with [[97; 195; 169]; [0]; [98]]
+    by (vm_compute; reflexivity).
+  repeat constructor; intro H; vm_compute in H; discriminate H.
+Qed.
 Example load_b_witness :
   load_b [97; 9; 49; 10; 255; 9; 50; 10] = None /\ load [97; 9; 49; 10; 255; 9; 50; 10] = Some [([97], 1); ([255], 2)]
   /\ load_b [97; 9; 49; 10; 195; 169; 9; 50; 10] = Some [([97], 1); ([195; 169], 2)].
@@ -570,3 +574,36 @@ Proof. vm_compute. repeat split; reflexivity. Qed.
 Example norm_query_witness :
   norm_query [65313; 101; 769; 64257] = [65; 233; 102; 105] /\ seg_key [101; 204; 129; 98] = [[101; 204; 129]; [98]].
 Proof. vm_compute. split; reflexivity. Qed.
+
+(** The extracted pipeline judges [create], save -> load and [load] on [prep0 v] = [prep v] without the queries, and the
+    queries with [check_closest_m] = [check_closest] with the oracle look-up replaced by the model's own segmentation. *)
+Theorem prep0_create : forall v,
+  model_create (modelize (prep0 v))
+  = create_bytes (in_chars v) (in_cg v) (in_max_size v) (in_max_seq v) (in_fbytes v) (in_arr v) (in_hp v).
+Proof. exact model_create_prep0_l. Qed.
+Print Assumptions prep0_create.
+
+Theorem check_closest_m_is_check_closest : forall (d0 d : dict) q a, (forall e, In e d -> In (fst e) (map fst d0)) ->
+  check_closest (segs_of_dict d0) d q a = check_closest_m d q a.
+Proof. exact check_closest_m_eq. Qed.
+Print Assumptions check_closest_m_is_check_closest.
+
+(** it accepts the answer of [closest_m] (whatever the [get] field holds) ... *)
+Theorem check_closest_m_complete : forall (d : dict) (q : query) g,
+  check_closest_m d q (L [g; closest_v (closest_m (fst q) (snd (snd q)) d)]) = true.
+Proof. exact check_closest_m_ok. Qed.
+Print Assumptions check_closest_m_complete.
+
+(** ... and an accepted answer is [None] on the empty dictionary, otherwise an entry at minimal distance that no entry
+    at the same distance exceeds in frequency — no oracle, no covering premise *)
+Theorem check_closest_m_sound : forall (d : dict) norm nq qc a,
+  check_closest_m d (norm, (nq, qc)) a = true ->
+  (d = [] -> exists g, a = L [g; L []]) /\
+  (d <> [] ->
+   exists g wv fz, a = L [g; L [L [wv; I fz]]] /\
+     In (v_bytes wv, Z.to_N fz) d /\
+     forall e', In e' d ->
+       (kdist_m norm qc (v_bytes wv, Z.to_N fz) <= kdist_m norm qc e')%Q /\
+       ((kdist_m norm qc e' == kdist_m norm qc (v_bytes wv, Z.to_N fz))%Q -> snd e' <= Z.to_N fz)).
+Proof. exact check_closest_m_sound_l. Qed.
+Print Assumptions check_closest_m_sound.
